@@ -456,3 +456,42 @@ func VerifC02_PlanChangeContinuesFromTheStepThatCoversWhatIsOut() {
 	}
 	verifrt.Cover("nothing-covers")
 }
+
+// A nextStepIndex that names no step (0, negative, beyond the plan — a user can patch anything into the status) is no
+// request at all: the rollout stays on its step, or moves on by exactly one from Ready; it never lands anywhere else.
+func c02OutOfRangeNextStepIndex(blueGreen bool, prefix string) {
+	vSimple = true
+	vState = -1
+	// three steps at least: landing two steps ahead must be expressible
+	nSteps := verifrt.Concrete(verifrt.IntRange("nSteps", 1, verifrt.Bound("stepsForJump", 3, 4)))
+	cur := verifrt.Concrete(verifrt.IntRange("st.currentStepIndex", 1, nSteps))
+	var r *v1beta1.Rollout
+	if blueGreen {
+		r = vBlueGreenRollout(nSteps, cur)
+	} else {
+		r = vCanaryRollout(nSteps, cur)
+	}
+	c := vContext(r)
+	calls := &vCalls{}
+	c04StubTasks(calls)
+	vStubRunBatchRelease(calls, &vBRResult{})
+	rec := c10Reconciler(&symclient.Client{})
+	pre := *c.Rollout.Status.GetSubStatus()
+	n := int32(len(c.Rollout.Spec.Strategy.GetSteps()))
+	verifrt.Assume(pre.NextStepIndex <= 0 || pre.NextStepIndex > n)
+	verifrt.Assume(pre.CurrentStepState != v1beta1.CanaryStepStateCompleted)
+	err := rec.handleNormalRolling(c)
+	if err != nil {
+		return
+	}
+	post := *c.NewStatus.GetSubStatus()
+	if post.CurrentStepIndex != pre.CurrentStepIndex {
+		verifrt.Cover("advanced")
+		verifrt.Assert(pre.CurrentStepState == v1beta1.CanaryStepStateReady && post.CurrentStepIndex == pre.CurrentStepIndex+1, prefix+".noStepNamedMeansNoJump")
+	} else {
+		verifrt.Cover("stayed")
+	}
+}
+
+func VerifC02_CanaryNextStepIndexNamingNoStepIsNoJump()    { c02OutOfRangeNextStepIndex(false, "C02.canary") }
+func VerifC02_BlueGreenNextStepIndexNamingNoStepIsNoJump() { c02OutOfRangeNextStepIndex(true, "C02.bluegreen") }
